@@ -3,6 +3,7 @@
      c05.c1p_decide (nc rows)            rows = ((0|1 ...) ...)           -> bool
      c05.c1p_check  (nc rows perm)       perm = (j ...)                   -> bool
      c05.c1p_core   (nc rows ridx cols)  submatrix certificate of a negative verdict -> bool
+     c05.sets_decide (F) / c05.sets_check (F result)   the contract of reorder_sets on a family of index tuples
      c05.X_decide   (alts ballots)       X in ci cei vi vei wsc de part part2 -> bool
      c05.X_check    (alts ballots w)     w = candidate order / ballot order / partition (list of lists)
      c05.de_check   (alts ballots (vpr ap))   vpr = (((num den) (num den)) ...)  ap = ((alt (num den)) ...)
@@ -27,6 +28,11 @@ Definition op_c1p_check (v : val) : val :=
 Definition op_c1p_core (v : val) : val :=
   ebool (c1p_core_refuted (d_rows (dnth 1 v)) (dnat (dnth 0 v)) (d_perm (dnth 2 v)) (d_perm (dnth 3 v))).
 
+(* contract of reorder_sets: (F) and (F result), F = list of ascending index tuples *)
+Definition d_sets (v : val) : list (list nat) := dlist (dlist dnat) v.
+Definition op_sets_decide (v : val) : val := ebool (sets_decide (d_sets (dnth 0 v))).
+Definition op_sets_check (v : val) : val := ebool (sets_check (d_sets (dnth 0 v)) (d_sets (dnth 1 v))).
+
 Definition dec2 (f : list N -> list (list N) -> bool) (v : val) : val :=
   ebool (f (d_alts (dnth 0 v)) (d_ballots (dnth 1 v))).
 Definition chk_alt (f : list N -> list (list N) -> list N -> bool) (v : val) : val :=
@@ -49,6 +55,7 @@ Definition e_parts (o : option (list (list N))) : val := eoption (elist (elist e
 Definition ops : optable :=
   [ ("c05.c1p_decide", op_c1p_decide); ("c05.c1p_check", op_c1p_check);
     ("c05.c1p_core", op_c1p_core);
+    ("c05.sets_decide", op_sets_decide); ("c05.sets_check", op_sets_check);
     ("c05.ci_decide", dec2 ci_decide);   ("c05.ci_check", chk_alt ci_check);
     ("c05.cei_decide", dec2 cei_decide); ("c05.cei_check", chk_alt cei_check);
     ("c05.vi_decide", dec2 vi_decide);   ("c05.vi_check", chk_idx vi_check);
